@@ -99,6 +99,12 @@ pub fn cli_scenario(idx: u64, t: &mut Tape) -> CliScn {
         Some(0) => {
             // unknown ids of every shape: ordinary, empty, one byte, multi-byte, wrong case, near miss
             args[2] = (*t.pick(CFG, &["nosuchgame", "", "x", "é", "日本", "aé", "TEAMFORTRESS2", "teamfortress", "minecraft ", "-", "🎮"])).to_string();
+            // or the id of the very game the simulated host runs, minus its last character (the host would
+            // answer if the tool went on with a guess)
+            let near: String = game_id.chars().take(game_id.chars().count().saturating_sub(1)).collect();
+            if t.draw(CFG, 3) == 0 && !near.is_empty() && gamedig::GAMES.get(near.as_str()).is_none() {
+                args[2] = near;
+            }
             Some("unknown-game")
         }
         Some(1) => {
